@@ -27,6 +27,7 @@ def check(run):
     sessions += refexp.alignment_sweep(rng, range(0, 2101))
     res = E.run_sessions(run, sessions, need_model=True)
     E.judge_builder(run, sessions, res)          # single-block sessions: the block-building model builds the same bytes
+    E.judge_projection(run, sessions, res)       # one parameter set: reader's records = Lean projection of the records buffered
     seen = set()
     for s, r in zip(sessions, res):
         E.judge_model(run, s, r)
